@@ -464,9 +464,15 @@ def conformance(seed):
         ref, _ = scipy.optimize.nnls(U, mvec)
         f = lambda x: 0.5 * float(np.sum((U @ x - mvec) ** 2))
         UtU, Utm = U.T @ U, U.T @ mvec
-        xh = NN.hals_nnls(Utm[:, None], UtU, V=np.ones((U.shape[1], 1)), exact=True)[:, 0]
-        xf = NN.fista(Utm, UtU, n_iter_max=20000, tol=0, epsilon=0.0)
-        xa = NN.active_set_nnls(Utm, UtU)
-        for k, x in (("hals_warm_exact", xh), ("fista", xf), ("active_set", xa)):
-            gaps[k] = max(gaps[k], abs(f(np.asarray(x, dtype=float)) - f(ref)))
+        runs = {
+            "hals_warm_exact": lambda: NN.hals_nnls(Utm[:, None], UtU, V=np.ones((U.shape[1], 1)), exact=True)[:, 0],
+            "fista": lambda: NN.fista(Utm, UtU, n_iter_max=20000, tol=0, epsilon=0.0),
+            "active_set": lambda: NN.active_set_nnls(Utm, UtU),
+        }
+        for k, run in runs.items():
+            try:  # a failing solver is the business of the obligations, never of this block
+                gaps[k] = max(float(gaps[k]), abs(f(np.asarray(run(), dtype=float)) - f(ref))) if not isinstance(gaps[k], str) else gaps[k]
+            except Exception as e:
+                gaps[k] = f"{type(e).__name__}: {e}"[:120]
+                break
     return {"objective_gap_vs_scipy_nnls": gaps, "instances": len(insts)}
